@@ -63,7 +63,7 @@ claim("C11", "DESIGN.md 6 C11", "Slab refinement + trace theorems for FutureGrou
 claim("C12", "DESIGN.md 6 C12", "The same theorems for StreamGroup: every item of every member exactly once in member order with its key; a member that ends is dropped in that poll and never polled again; None iff no members remain. C12_every_item_comes_out_under_wake_driven_executor: a StreamGroup of streams is empty after at most (items still scripted + 1) * B rounds of the wake-driven executor of C01, at a world of the model." + COMMON)
 claim("C16", "DESIGN.md 6 C16", "C16_join/merge/zip/group: in the selective strategy the model never polls a child whose last answer was Pending and whose slot has not fired since (ghost flag g_bad16 stays false for all histories); C16_*_trace: the same as a statement about the observable trace alone - the boolean monitor mon16, which recomputes the bookkeeping from the events, accepts every trace of the model (Section GhostTrace: the ghost fields are a function of the trace in every reachable state); checked against the std build." + COMMON)
 claim("C17", "DESIGN.md 6 C17", "C17_merge_window: an input whose script is items only and never runs out has provenance in any n consecutive results, whatever the others do (generic fairness lemma of rotating scans)." + COMMON)
-claim("C19", "DESIGN.md 6 C19", "C19_wait_until_gate (Pw): polls are (deadline,Pending)* (deadline,a0) (inner,_)+; results are exactly the inner's non-Pending answers. Progress: C19_wait_until_resolves_under_any_schedule (future form) and C19_wait_until_stream_next_result_under_any_schedule (stream form, from every reachable state, any schedule of polls and wake-ups)." + COMMON)
+claim("C19", "DESIGN.md 6 C19", "C19_wait_until_gate (Pw): polls are (deadline,Pending)* (deadline,a0) (inner,_)+; results are exactly the inner's non-Pending answers. Progress: C19_wait_until_resolves_under_any_schedule (future form) and C19_wait_until_stream_next_result_under_any_schedule (stream form, from every reachable state, any schedule of polls and wake-ups), C19_wait_until_stream_ends_under_any_schedule, C19_wait_until_resolves_from_every_reachable_state." + COMMON)
 claim("C20", "DESIGN.md 6 C20", "C20_*: after a Pending return with no insertion since, every awaited child has been polled - selective and non-selective strategies, join/try_join, merge, zip, groups. Second sentence: C20_*_sibling_progress(_trace) - in any reachable state an awaited child that has signalled since its last poll (or was never polled) is polled in the very next poll unless that poll delivers a result first or unwinds, whatever the other children do; race/race_ok poll every unfinished child in every Pending poll (C20_race_polls_all, C20_race_ok_polls_all). Nests of combinators are instantiated by the harness and judged by the monitor and, in the conc-nest-sim suites, against the composed nest model (coq/Model/Nest.v, extracted; nothing is proved about nests as such)." + COMMON)
 P["C04"]["text"] += COMMON
 claim("C18", "DESIGN.md 6 C18",
